@@ -343,8 +343,12 @@ void dispatchProgram(GenState &gs, Node *c) {
   gs.emitBackpatched(Instruction::Jmp(after_label));
 
   // generate program code
-  Node *name_node = c->left->left, *args_node = c->left->right->left,
-       *out_node = c->left->right->right, *body_node = c->right;
+  // a header without IN/OUT ("PROGRAM f DO ...") has no ports node
+  Node *ports_node = c->left->right;
+  Node *name_node = c->left->left,
+       *args_node = ports_node != NULL ? ports_node->left : NULL,
+       *out_node = ports_node != NULL ? ports_node->right : NULL,
+       *body_node = c->right;
 
   std::string name = std::string(name_node->tok);
   gs.pushSymbols(name);
